@@ -11,6 +11,7 @@ import Proofs.C11_Iso
 import Proofs.C11_Norm
 import Proofs.C11_Reuss
 import Proofs.C11_Setters
+import Proofs.C11_Fixpoint
 
 namespace Atomman.C11
 open Atomman.Gen
